@@ -188,7 +188,9 @@ fn main() {
                 }
                 "C17" => props::c17::replay(&v),
                 "C10" => {
-                    world::install_seq_hooks();
+                    if v["engine"] != "E3-schedcheck" {
+                        world::install_seq_hooks();
+                    }
                     props::c10::replay(&v)
                 }
                 "C12" => {
@@ -219,6 +221,7 @@ fn main() {
         "e3shard" => e3::shard_main(&args[2..], &|prop, tier| match prop {
             "C14" => props::c14::bodies(tier),
             "C06" => props::c06::bodies(tier),
+            "C10" => props::c10::bodies(tier),
             "C02" => props::c02::bodies(tier),
             "C13" => props::c13::bodies(tier),
             "C16" => props::c16::bodies(tier),
